@@ -11,7 +11,7 @@ ID = 'C19'
 RULE = ('Hypothesis flat experiment frames: 2..12 geos over both groups (+ excluded geos in the colab layout), n_pre 8..40, '
         'test and cooldown periods, planted noisy geos (independent noise or constant series, when >= 5 geos), planted '
         'outlier cell (+50..500 on one date), custom column names / group and period labels, target given or defaulted, '
-        'shuffled rows. Non-trivial = >= 4 geos (noisy-geo detection active) and (>= 1 noisy geo or >= 1 outlier date '
+        'shuffled rows; in half of the cases the diagnostics object had already been fitted to another frame. Non-trivial = >= 4 geos (noisy-geo detection active) and (>= 1 noisy geo or >= 1 outlier date '
         'reported); distinct by spec hash.')
 BUDGET = {'quick': 640, 'thorough': 12000}
 FLOOR = {'quick': 60, 'thorough': 1000}
@@ -22,7 +22,7 @@ ASSUMPTIONS = ['full panels (every geo on every date)', 'detection power is not 
 @st.composite
 def _spec(draw):
   fs = draw(frames.experiment_frame_spec('c19'))
-  return {'frame': fs, 'pass_target': draw(st.booleans())}
+  return {'frame': fs, 'pass_target': draw(st.booleans()), 'refit': draw(st.booleans())}
 
 
 def strategy(tier):
@@ -36,9 +36,9 @@ def _rows(df, cols):
   return sorted(out, key=repr)
 
 
-def _fit(df, kwargs, target):
+def _fit(df, kwargs, target, d=None):
   from matched_markets.methodology import tbrdiagnostics
-  d = tbrdiagnostics.TBRDiagnostics()
+  d = d or tbrdiagnostics.TBRDiagnostics()
   if target is None:
     d.fit(df, **kwargs)
   else:
@@ -68,7 +68,16 @@ def run(spec):
   before = df.copy(deep=True)
   det = {'n_geos': n_geos, 'n_pre': fs['n_pre'], 'names': fs['names'], 'labels': fs['labels']}
   try:
-    d = _fit(df, kwargs, target)
+    d0 = None
+    if spec.get('refit'):
+      # 'refit' flavour: the diagnostics object has already screened another frame (more geos / a planted outlier)
+      other = dict(fs, outlier={'pos': 2, 'amount': 500, 'geo': 0}, geos=[dict(g, kind='ind') if i == 1 else g for i, g in enumerate(fs['geos'])])
+      try:
+        d0 = _fit(frames.materialise(other)[0], kwargs, target)
+        cls.append('refit')
+      except Exception:  # pylint: disable=broad-except
+        d0 = None
+    d = _fit(df, kwargs, target, d0)
   except ValueError as e:
     msg = str(e)
     if 'Both control and treatment group ids must be present' in msg or 'at least 4' in msg:
